@@ -491,8 +491,8 @@ def program(rng, kind):
         for k in range(nl):
             t = r.choice([I32, U32, F32, BOOL, I32, BOOL])
             e, txt = g.expr(t, 1, small=r.chance(1, 2))
-            if not refs_override(e):
-                continue
+            if not refs_override(e) or any(txt == l["name"] for l in lets):
+                continue                  # no override involved / a mere alias of an earlier let (same IR handle)
             name = "r%d" % len(lets)
             lets.append({"name": name, "ty": t, "e": e})
             g.lets = lets
@@ -777,10 +777,62 @@ def matrix_programs():
         out.append(_prog([a, _decl(1, t, (e, txt))], [], [], vmap=[[a["name"], f64bits(v)]]))
         out.append(_prog([a], [{"name": "gva", "ty": t, "init": e, "text": "var<private> gva: %s = %s;" % (TYNAME[t], txt)}], [],
                          vmap=[[a["name"], f64bits(v)]]))
-    # references to an override the MSL pass left unresolved
-    for t in (I32, U32, F32, BOOL):
+    # references to an override the MSL pass left unresolved (NaN = not set)
+    for t in (I32, U32, F32):
         a = _decl(0, t, _lit_for(t, 1 if t != F32 else 1.0))
-        out.append(_prog([a, _decl(1, t, ([1, 0], a["name"]))], [], [], vmap=[[a["name"], f64bits(float("nan"))]]))
+        two, twot = _lit_for(t, 2 if t != F32 else 3.0)
+        e, txt = [4, MUL, [1, 0], two], "(%s * %s)" % (a["name"], twot)
+        out.append(_prog([a, _decl(1, t, (e, txt))], [], [], vmap=[[a["name"], f64bits(float("nan"))]]))
+    # abstract-int division evaluated in floating point
+    out.append(_prog([_decl(0, F32, ([4, DIV, lit_int(100, 0)[0], lit_int(9, 0)[0]], "(100 / 9)"))], [], [], vmap=trigger))
+    # derived global initialisers whose lowering drops them; defaults dropped inside an operator
+    for t, leaf in ((I32, "const"), (F32, "fsuffix")):
+        a = _decl(0, t, _lit_for(t, 3 if t == I32 else 1.5))
+        if leaf == "const":
+            l, ltxt = _lit_for(I32, 3)
+            c = [("KA", I32, l, "const KA: i32 = %s;" % ltxt)]
+            x, xt = [2, I32, l[1]], "KA"
+        else:
+            c = []
+            x, xt = lit_float("2.5", 1)
+        e, txt = [4, ADD, [1, 0], x], "(%s + %s)" % (a["name"], xt)
+        out.append(_prog([a], [{"name": "gva", "ty": t, "init": e, "text": "var<private> gva: %s = %s;" % (TYNAME[t], txt)}], [], vmap=trigger, consts=c))
+        out.append(_prog([a, _decl(1, t, (e, txt))], [], [], vmap=trigger, consts=c))
+    # type inferred from a non-literal initialiser
+    a = _decl(0, I32, lit_int(3, 1))
+    out.append(_prog([a, _decl(1, I32, ([4, ADD, [1, 0], lit_int(1, 1)[0]], "(%s + 1i)" % a["name"]), declared=False)], [], [], vmap=trigger))
+    # overflow / error-required cases the value pairs above do not reach
+    for t, op, x, y in ((I32, SUB, -2147483647, 5), (I32, ADD, 2147483647, 5), (I32, MUL, 2147483647, 3),
+                        (U32, MUL, 4107723037, 16777215)):
+        a = _decl(0, t, _lit_for(t, 1))
+        ye, ytxt = _lit_for(t, y)
+        e, txt = [4, op, [1, 0], ye], "(%s %s %s)" % (a["name"], BOPS[op], ytxt)
+        vm = [[a["name"], f64bits(float(x))]]           # large operands arrive as pipeline values (literals are rounded to f32)
+        out.append(_prog([a, _decl(1, t, (e, txt))], [], [], vmap=vm))
+        out.append(_prog([a], [], [{"name": "ra", "ty": t, "e": e, "text": txt}], vmap=vm))
+    for op, x, y in ((MUL, "3e38", "10.0"), (DIV, "1.0", "0.0"), (ADD, "3e38", "3e38")):
+        xe, xt = lit_float(x, 0)
+        ye, yt = lit_float(y, 0)
+        out.append(_prog([_decl(0, F32, ([4, op, xe, ye], "(%s %s %s)" % (xt, BOPS[op], yt)))], [], [], vmap=trigger))
+        a = _decl(0, F32, (xe, xt))
+        e, txt = [4, op, [1, 0], ye], "(%s %s %s)" % (a["name"], BOPS[op], yt)
+        out.append(_prog([a], [], [{"name": "ra", "ty": F32, "e": e, "text": txt}], vmap=trigger))
+    for op in (LAND, LOR):
+        a = _decl(0, BOOL, lit_bool(True))
+        e, txt = [4, op, [1, 0], lit_bool(False)[0]], "(%s %s false)" % (a["name"], BOPS[op])
+        out.append(_prog([a], [], [{"name": "ra", "ty": BOOL, "e": e, "text": txt}], vmap=trigger))
+    a = _decl(0, F32, lit_float("1.5", 0))
+    e, txt = [4, EQ, [1, 0], lit_float("1.5", 0)[0]], "(%s == 1.5)" % a["name"]
+    out.append(_prog([a, _decl(1, BOOL, (e, txt))], [], [], vmap=trigger))
+    # statement shapes whose storage the clone shares with the caller's module
+    a = _decl(0, I32, lit_int(7, 0))
+    for shape_src in ("fn hf(x: i32) -> i32 { let y = %s + x; return y * 2; }\n@compute @workgroup_size(1)\nfn main() {\n  ob[0] = hf(1);\n}\n",
+                      "fn hg(x: i32) -> i32 { return x; }\n@compute @workgroup_size(1)\nfn main() {\n  let s3 = %s + ob[1];\n  let z3 = hg(s3);\n  ob[0] = z3;\n}\n",
+                      "@compute @workgroup_size(1)\nfn main() {\n  let s1 = %s + ob[1];\n  if (s1 > 3) { ob[0] = s1 * 2; }\n}\n"):
+        pr = _prog([a], [], [], vmap=trigger)
+        pr["src"] = a["text"] + "\n@group(0) @binding(0) var<storage, read_write> ob: array<i32>;\n" + (shape_src % a["name"])
+        pr["shape"] = 1
+        out.append(pr)
     # lookup order, unknown keys, literal forms, const refs, inferred types, workgroup sizes
     a = _decl(0, I32, lit_int(7, 0), oid=5)
     out.append(_prog([a], [], [], vmap=[["5", f64bits(9.0)], [a["name"], f64bits(100.0)]]))
